@@ -18,7 +18,7 @@ from vmon.props import c11
 
 LEVEL = "exploration"
 SHARDS = {"quick": 16, "thorough": 16}
-MUST = ["write.twice", "write.after_parsing_packets", "write.after_other_writes", "history.variant_headers", "cycle.g2g3", "namespace.checked", "crossprocess.documents", "immutability.snapshots", "route.xml", "route.objects",
+MUST = ["write.twice", "write.via_write_xml", "cycle.g2g3_files", "write.after_parsing_packets", "write.after_other_writes", "history.variant_headers", "cycle.g2g3", "namespace.checked", "crossprocess.documents", "immutability.snapshots", "route.xml", "route.objects",
         "style.prefix", "style.default", "style.none"]
 RULE = ("case = generated definition (both build routes; namespace conventions prefix xtce / custom prefix / default "
         "namespace / none) with a fixed header date: written twice in-process, again after it decoded packets, and again after other definitions (with / without a SpaceSystem name, other header "
@@ -123,6 +123,9 @@ def run(ctx):
                     ctx.violation(f"{route}/nondeterministic/after-parsing", f"writing the definition again after it decoded {used} packets gives different bytes"
                                   + (f" ({w3.exc!r})" if w3.exc is not None else ""),
                                   dict(wit, first_diff=first_diff(G1, w3.value) if w3.exc is None else None))
+            # the same through the file-writing entry point: write_xml(path) twice -> identical files; file cycle G2 == G3
+            if i % 5 == 0:
+                via_files(ctx, D, prefix, route, wit)
             # well-formed + namespaces
             try:
                 nss = reader.element_namespaces(G1)
@@ -167,6 +170,42 @@ def run(ctx):
             ctx.count("crossprocess.documents")
             if other.get(k) != v:
                 ctx.violation(f"{k.split('/')[1]}/nondeterministic/cross-process", f"document {k}: digest differs under PYTHONHASHSEED={hs}", {"doc": k, "hashseed": hs})
+
+
+def via_files(ctx, D, prefix, route, wit):
+    import pathlib
+    import tempfile
+    from space_packet_parser.xtce.definitions import XtcePacketDefinition
+    d = tempfile.mkdtemp(prefix="vmon-c15-", dir=os.environ.get("VMON_SCRATCH"))
+    try:
+        paths = [pathlib.Path(d) / f"g{k}.xml" for k in range(4)]
+        a = monitored(D.write_xml, paths[0])
+        b = monitored(D.write_xml, paths[1])
+        ctx.count("write.via_write_xml")
+        if a.exc is not None or b.exc is not None:
+            ctx.violation(f"{route}/write_xml/{type(a.exc or b.exc).__name__}", f"write_xml raised {(a.exc or b.exc)!r}", wit)
+            return
+        g1a, g1b = paths[0].read_bytes(), paths[1].read_bytes()
+        if g1a != g1b:
+            ctx.violation(f"{route}/nondeterministic/write_xml-twice", "write_xml of the same definition to two files gave different bytes",
+                          dict(wit, first_diff=first_diff(g1a, g1b)))
+        l1 = monitored(XtcePacketDefinition.from_xtce, paths[0], xtce_ns_prefix=prefix)
+        if l1.exc is not None:
+            ctx.violation(f"{route}/cycle/write_xml-reload/{type(l1.exc).__name__}", repr(l1.exc), wit)
+            return
+        l1.value.write_xml(paths[2])
+        l2 = monitored(XtcePacketDefinition.from_xtce, str(paths[2]), xtce_ns_prefix=prefix)
+        if l2.exc is not None:
+            ctx.violation(f"{route}/cycle/write_xml-reload-2/{type(l2.exc).__name__}", repr(l2.exc), wit)
+            return
+        l2.value.write_xml(paths[3])
+        ctx.count("cycle.g2g3_files")
+        if paths[2].read_bytes() != paths[3].read_bytes():
+            ctx.violation(f"{route}/cycle/g2-ne-g3/files", "the second and third generation FILES differ",
+                          dict(wit, first_diff=first_diff(paths[2].read_bytes(), paths[3].read_bytes())))
+    finally:
+        import shutil
+        shutil.rmtree(d, ignore_errors=True)
 
 
 def write_history(ctx, pool, rng):
